@@ -79,6 +79,8 @@ def run_check(prop, tier, only=None, jobs=None, native=True, proof=True, verbose
     open_findings = {k['id']: k for k in known if k.get('status', 'open') == 'open'}
     baseline = load_baseline(prop)
     results = []
+    if proof and not os.path.exists(os.path.join(HERE, 'contracts', f'{prop}.py')):
+        proof = False          # no contract file yet: only the bounded stand-in runs (such a property is not claimed in MANIFEST.json)
     if proof:
         results = runner.run_property(prop, tier, only=only, jobs=jobs)
     nat = run_native(prop, tier, seed) if native else None
